@@ -4,6 +4,7 @@ import (
 	"go/ast"
 	"go/constant"
 	"go/types"
+	"strings"
 
 	"golang.org/x/tools/go/packages"
 )
@@ -85,4 +86,29 @@ func FileOf(pk *packages.Package, n ast.Node) *ast.File {
 		}
 	}
 	return nil
+}
+
+// InModulePath reports whether a package path belongs to the module under analysis.
+func (p *Program) InModulePath(path string) bool {
+	return path == p.ModPath || strings.HasPrefix(path, p.ModPath+"/")
+}
+
+// DeclOf returns the AST declaration of a module function given by its types object.
+func (p *Program) DeclOf(f *types.Func) (*ast.FuncDecl, *packages.Package) {
+	if f == nil || f.Pkg() == nil {
+		return nil, nil
+	}
+	for _, pk := range p.Roots {
+		if pk.Types != f.Pkg() {
+			continue
+		}
+		for _, file := range pk.Syntax {
+			for _, d := range file.Decls {
+				if fd, ok := d.(*ast.FuncDecl); ok && pk.TypesInfo.Defs[fd.Name] == f {
+					return fd, pk
+				}
+			}
+		}
+	}
+	return nil, nil
 }
